@@ -170,8 +170,8 @@ package zygo
 //@ C01,C15,C19 ensures fresh(r0) && wfs(r0) && r0.tos == -1 && r0.env == env && !r0.IsPackage
 
 //@ func (*Stack).Size
-//@ C01 pure
-//@ C01 ensures r0 == stack.tos + 1
+//@ C01,C02 pure
+//@ C01,C02 ensures r0 == stack.tos + 1
 
 //@ func (*Stack).Top
 //@ C01 pure
@@ -207,8 +207,8 @@ package zygo
 //@ func (*Stack).TruncateToSize
 //@ requires typeinv[Stack] wfs(stack)
 //@ C01 nopanic
-//@ C01 modifies stack.tos, stack.elements, elems(stack.elements)
-//@ C01 ensures wfs(stack) && stack.tos == ite(newsize < 0, 0, newsize) - 1
+//@ C01,C02 modifies stack.tos, stack.elements, elems(stack.elements)
+//@ C01,C02 ensures wfs(stack) && stack.tos == ite(newsize < 0, 0, newsize) - 1
 //@ C01 loop 0 invariant 0 <= i && 0 <= newsize && newsize <= len(stack.elements) && len(stack.elements) == old(len(stack.elements)) && sarr(stack.elements) == old(sarr(stack.elements))
 
 //@ func (*Stack).Clone
@@ -463,16 +463,16 @@ package zygo
 // data-stack helpers (datastack.go)
 //@ func (*Stack).PushExpr
 //@ requires typeinv[Stack] wfs(stack)
-//@ C04,C05 modifies stack.tos, stack.elements, elems(stack.elements)
-//@ C04,C05 ensures wfs(stack) && stack.tos == old(stack.tos) + 1
+//@ C02,C04,C05 modifies stack.tos, stack.elements, elems(stack.elements)
+//@ C02,C04,C05 ensures wfs(stack) && stack.tos == old(stack.tos) + 1
 //@ C04 ensures top: typeis(stack.elements[stack.tos], DataStackElem) && stack.elements[stack.tos].(DataStackElem).expr == expr
 
 //@ func (*Stack).PopExpr
 //@ requires typeinv[Stack] wfs(stack)
-//@ C04,C05 modifies stack.tos, stack.elements, elems(stack.elements)
-//@ C04,C05 ensures ok: r1 == nil ==> wfs(stack) && old(stack.tos) >= 0 && stack.tos == old(stack.tos) - 1
-//@ C04,C05 ensures underflow: r1 != nil ==> old(stack.tos) < 0 && stack.tos == old(stack.tos)
-//@ C04 ensures value: r1 == nil ==> r0 == old(stack.elements[stack.tos].(DataStackElem).expr)
+//@ C02,C04,C05 modifies stack.tos, stack.elements, elems(stack.elements)
+//@ C02,C04,C05 ensures ok: r1 == nil ==> wfs(stack) && old(stack.tos) >= 0 && stack.tos == old(stack.tos) - 1
+//@ C02,C04,C05 ensures underflow: r1 != nil ==> old(stack.tos) < 0 && stack.tos == old(stack.tos)
+//@ C02,C04 ensures value: r1 == nil ==> r0 == old(stack.elements[stack.tos].(DataStackElem).expr)
 
 //@ func functionSize
 //@ C05 pure
@@ -1005,3 +1005,46 @@ package zygo
 //@ C02 assert body-jumps-to-increment @before call AddInstruction[14]: (backAt + backLoc == contAt || backAt + backLoc == incrAt) && endAt == backAt + 1
 //@ C02 assert cleanup-follows @before call AddInstruction[14]: arg0 == gen && typeis(arg1, ClearStackmarkInstr) && cleanupAt == endAt + 1
 //@ C02 ensures break-continue-targets: r0 == nil ==> (lp.breakOffset == cleanupAt - startAt || lp.breakOffset == endAt - startAt) && (lp.continueOffset == contAt - startAt || lp.continueOffset == incrAt - startAt)
+
+// what counts as true: everything except false, the zero integer/char and nil
+//@ macro truthy(v Sexp) bool = ite(typeis(v, *SexpBool), v.(*SexpBool).Val, ite(typeis(v, *SexpInt), v.(*SexpInt).Val != 0, ite(typeis(v, *SexpUint64), v.(*SexpUint64).Val != 0,
+//@ |  ite(typeis(v, *SexpChar), v.(*SexpChar).Val != 0, ite(typeis(v, *SexpSentinel), v.(*SexpSentinel) != SexpNull, true)))))
+//@ func IsTruthy
+//@ C02 pure
+//@ C02 nopanic
+//@ C02 ensures r0 == truthy(expr)
+
+// a branch pops the tested value, and moves by its offset exactly when the value's truth equals its direction
+//@ func (BranchInstr).Execute
+//@ requires typeinv[Zlisp] distinctStacks(env)
+//@ requires typeinv[Stack] wfs(env.datastack)
+//@ C02 ensures taken-or-next: r0 == nil ==> old(env.datastack.tos) >= 0 && env.datastack.tos == old(env.datastack.tos) - 1
+//@ |  && let(v, old(env.datastack.elements[env.datastack.tos].(DataStackElem).expr), env.pc == old(env.pc) + ite(b.direction == truthy(v), b.location, 1))
+
+// a body pops the value of every statement but the last (when the statement produced code)
+//@ func (*Generator).GenerateBegin
+//@ ghost lenBefore := 0 @entry
+//@ ghost lenAfter := 0 @entry
+//@ ghost lenBefore := len(gen.instructions) @before call Generate[0]
+//@ ghost lenAfter := len(gen.instructions) @after call Generate[0]
+//@ C02 assert pops-statement-value @before call AddInstruction[0]: arg0 == gen && typeis(arg1, PopInstr) && len(arg0.instructions) == lenAfter
+//@ C02 loop 0 invariant statement-value-popped: lenAfter > lenBefore ==> len(gen.instructions) == lenAfter + 1 && typeis(gen.instructions[lenAfter], PopInstr)
+
+// argument marshalling: the n topmost values come off the data stack in the order they were pushed
+//@ func (*Stack).GetExpressions
+//@ requires typeinv[Stack] wfs(stack)
+//@ C02 pure
+//@ C02 ensures in-push-order: r1 == nil && n >= 0 ==> n <= stack.tos + 1 && len(r0) == n && fresh(sarr(r0)) && forall(k, 0 <= k && k < n ==> r0[k] == stack.elements[stack.tos - n + 1 + k].(DataStackElem).expr)
+//@ C02 ensures short: r1 != nil && n >= 0 ==> n > stack.tos + 1
+//@ C02 loop 0 invariant 0 <= i && (i <= n || n < 0) && len(arr) == n && fresh(sarr(arr)) && soff(arr) == 0 && forall(k, 0 <= k && k < i ==> arr[k] == stack.elements[stack.tos - n + 1 + k].(DataStackElem).expr)
+//@ func (*Stack).PopExpressions
+//@ requires typeinv[Stack] wfs(stack)
+//@ C02 modifies stack.tos, stack.elements, elems(stack.elements)
+//@ C02 ensures in-push-order: r1 == nil && n >= 0 ==> stack.tos == old(stack.tos) - n && len(r0) == n && forall(k, 0 <= k && k < n ==> r0[k] == old(stack.elements[stack.tos - n + 1 + k].(DataStackElem).expr))
+//@ C02 ensures short: r1 != nil ==> stack.tos == old(stack.tos)
+// a variadic call replaces the extra arguments by one list (or nil when there are none)
+//@ func (*Zlisp).wrangleOptargs
+//@ requires typeinv[Zlisp] distinctStacks(env)
+//@ requires typeinv[Stack] wfs(env.datastack)
+//@ C02 ensures one-rest-value: r0 == nil && fnargs >= 0 ==> nargs >= fnargs && env.datastack.tos == old(env.datastack.tos) - (nargs - fnargs) + 1
+//@ C02 ensures too-few: nargs < fnargs ==> r0 != nil && env.datastack.tos == old(env.datastack.tos)
